@@ -15,7 +15,7 @@ import (
 // upstream. All gates are open; the same oracle as for the scripted scenarios judges the round.
 func runStressRound(res *fw.Result, rng *rand.Rand, label string) *scenario {
 	limiter := rng.IntN(4) == 0
-	maxConc := []int{4, 64, 1024}[rng.IntN(3)]
+	maxConc := []int{1, 2, 4, 64, 1024}[rng.IntN(5)]
 	sc := newScenario(res, label, limiter, maxConc)
 	sc.ctl.perturb = true
 	sc.noInbound = rng.IntN(3) == 0
@@ -75,8 +75,7 @@ func runStressRound(res *fw.Result, rng *rand.Rand, label string) *scenario {
 		switch r := rng.IntN(100); {
 		case r < 68:
 		case r < 74: // before it starts
-			p.cancelIssued.Store(true)
-			p.cancel()
+			sc.doCancel(p, "")
 		case r < 84: // exactly when its own upstream call begins
 			cancelAtLoad[p.id] = true
 		case r < 93: // timed
@@ -84,16 +83,14 @@ func runStressRound(res *fw.Result, rng *rand.Rand, label string) *scenario {
 		default: // at the n-th arrival at one of the yield points, whoever arrives
 			pt := c11Points[rng.IntN(len(c11Points))]
 			sc.ctl.at(pt, int64(1+rng.IntN(6)), func() {
-				p.cancelIssued.Store(true)
-				p.cancel()
+				sc.doCancel(p, "")
 			})
 		}
 	}
 	parts := sc.parts
 	sc.w.onLoad = func(pid int) {
 		if pid >= 0 && pid < len(parts) && cancelAtLoad[pid] {
-			parts[pid].cancelIssued.Store(true)
-			parts[pid].cancel()
+			sc.doCancel(parts[pid], "")
 		}
 	}
 	sc.run(func() {
@@ -106,8 +103,7 @@ func runStressRound(res *fw.Result, rng *rand.Rand, label string) *scenario {
 			go func() {
 				<-barrier
 				time.Sleep(t.d)
-				t.p.cancelIssued.Store(true)
-				t.p.cancel()
+				sc.doCancel(t.p, "")
 			}()
 		}
 		close(barrier)
